@@ -209,3 +209,33 @@ func ClassOf(r *syntax.Regexp) func(rune) bool {
 	}
 	return nil
 }
+
+// FixedAffixes returns the lengths (in bytes) of the literal prefix and the
+// literal suffix of a sub-expression that is a concatenation
+// literal* variable+ literal*, and whether it has that shape (a variable part
+// is anything that is not a plain literal). Case-folded literals do not count
+// as fixed.
+func FixedAffixes(r *syntax.Regexp) (prefix, suffix int, ok bool) {
+	for r.Op == syntax.OpCapture && len(r.Sub) == 1 {
+		r = r.Sub[0]
+	}
+	items := []*syntax.Regexp{r}
+	if r.Op == syntax.OpConcat {
+		items = r.Sub
+	}
+	isLit := func(x *syntax.Regexp) bool { return x.Op == syntax.OpLiteral && x.Flags&syntax.FoldCase == 0 }
+	i := 0
+	for i < len(items) && isLit(items[i]) {
+		prefix += len(string(items[i].Rune))
+		i++
+	}
+	j := len(items)
+	for j > i && isLit(items[j-1]) {
+		suffix += len(string(items[j-1].Rune))
+		j--
+	}
+	if i >= j {
+		return prefix, suffix, false // nothing variable in between
+	}
+	return prefix, suffix, true
+}
